@@ -20,7 +20,9 @@
      LNext t   client t starts its next call: run(k) inline when nw = 0, else enters the section;
                stop(); queueSize()
      LJoin t   stop() in client t joins the next worker (enabled when that worker has returned from
-               runInThread), and returns after the last one
+               runInThread), and returns after the last one; joining a worker that has been joined
+               before is the assertion failure of Thread::join (a second stop()): the client faults
+     LInit t   worker t evaluates `if (threadInitCallback_) threadInitCallback_();` at the top of runInThread
    start(nw) itself (running_ = true, thread creation) precedes the initial state. *)
 From Coq Require Import List Arith Bool.
 From Muduo Require Import Conc_Model.
@@ -74,7 +76,10 @@ Inductive pc :=
 | CIdle (ops : list uop)              (* client: between two calls; ops = what is left *)
 | CCall (ops : list uop)              (* client: inside run() / queueSize() *)
 | CStopping (ops : list uop)          (* client: inside the first block of stop() *)
-| CJoin (i : nat) (ops : list uop).   (* client: stop() about to join worker i *)
+| CJoin (i : nat) (ops : list uop)    (* client: stop() about to join worker i *)
+| WInit                               (* worker: about to evaluate `if (threadInitCallback_) threadInitCallback_();` *)
+| CFault (ops : list uop).            (* client: aborted by the assertion in Thread::join (second join of a thread);
+                                         absorbing; ops = what it never got to *)
 
 Inductive event :=
 | EvAccept (t : nat) (k : task)       (* run(k) appended k to queue_ *)
@@ -83,11 +88,14 @@ Inductive event :=
 | EvStart (t : nat) (k : task)        (* worker t calls task k *)
 | EvInline (t : nat) (k : task)       (* client t runs k inline (threads_.empty()) *)
 | EvStopSec (t : nat)                 (* the first block of stop() ran *)
-| EvStopRet (t : nat).                (* stop() returned in t *)
+| EvStopRet (t : nat)                 (* stop() returned in t *)
+| EvInit (t : nat)                    (* worker t passed the thread-init callback *)
+| EvJoin (t i : nat)                  (* stop() in t joined worker i *)
+| EvFault (t i : nat).                (* stop() in t tried to join worker i a second time: assert(!joined_) *)
 
 Record psys := mkP { mon : sys pool pop pres; pcs : list pc; evs : list event }.
 
-Inductive plabel := LMon (l : label) | LLoad (t : nat) | LExec (t : nat) | LNext (t : nat) | LJoin (t : nat).
+Inductive plabel := LMon (l : label) | LLoad (t : nat) | LExec (t : nat) | LNext (t : nat) | LJoin (t : nat) | LInit (t : nat).
 
 (* the call thread t is inside, with its result, if evaluating the body now returns *)
 Definition ret_of (maxq : nat) (m : sys pool pop pres) (t : nat) : option (pop * pres) :=
@@ -143,6 +151,9 @@ Definition call (t : nat) (o : pop) (p : pc) (s : psys) : option psys :=
   end.
 
 Definition is_done (p : option pc) : bool := match p with Some WDone => true | _ => false end.
+(* muduo::Thread::joined_ of worker i, read off the log *)
+Definition joined (i : nat) (e : list event) : bool :=
+  existsb (fun x => match x with EvJoin _ j => Nat.eqb j i | _ => false end) e.
 
 Definition pstep (nw maxq : nat) (s : psys) (l : plabel) : option psys :=
   match l with
@@ -172,8 +183,16 @@ Definition pstep (nw maxq : nat) (s : psys) (l : plabel) : option psys :=
       match pc_at s t with
       | Some (CJoin i ops) =>
           if i <? nw then
-            (if is_done (pc_at s i) then Some (mkP (mon s) (upd t (CJoin (S i) ops) (pcs s)) (evs s)) else None)
+            (* Thread::join: assert(started_); assert(!joined_); joined_ = true; pthread_join *)
+            (if joined i (evs s) then Some (mkP (mon s) (upd t (CFault ops) (pcs s)) (evs s ++ [EvFault t i]))
+             else if is_done (pc_at s i) then Some (mkP (mon s) (upd t (CJoin (S i) ops) (pcs s)) (evs s ++ [EvJoin t i]))
+             else None)
           else Some (mkP (mon s) (upd t (CIdle ops) (pcs s)) (evs s ++ [EvStopRet t]))
+      | _ => None
+      end
+  | LInit t =>
+      match pc_at s t with
+      | Some WInit => Some (mkP (mon s) (upd t WLoop (pcs s)) (evs s ++ [EvInit t]))
       | _ => None
       end
   end.
@@ -181,7 +200,7 @@ Definition pstep (nw maxq : nat) (s : psys) (l : plabel) : option psys :=
 (* threads 0..nw-1 are the workers, nw.. the clients with programs [progs] *)
 Definition pinit (nw : nat) (progs : list (list uop)) : psys :=
   mkP (init_sys (mkPool [] true) (repeat [] nw ++ map (fun _ => []) progs))
-      (repeat WLoop nw ++ map CIdle progs) [].
+      (repeat WInit nw ++ map CIdle progs) [].
 
 Inductive preach (nw maxq : nat) (s0 : psys) : psys -> Prop :=
 | preach_refl : preach nw maxq s0 s0
@@ -218,6 +237,16 @@ Definition inhand1 (p : pc) : list task := match p with WGot k => [k] | _ => [] 
 Definition inhand (ps : list pc) : list task := flat_map inhand1 ps.
 Definition inhand_at (s : psys) (t : nat) : list task := match pc_at s t with Some p => inhand1 p | None => [] end.
 
+Definition inits (e : list event) : list nat := flat_map (fun x => match x with EvInit t => [t] | _ => [] end) e.
+(* what client t's run() calls came to, in order: accepted, rejected or run inline *)
+Definition decided_by (t : nat) (e : list event) : list task :=
+  flat_map (fun x => match x with
+                     | EvAccept u k | EvReject u k | EvInline u k => if Nat.eqb u t then [k] else []
+                     | _ => []
+                     end) e.
+Definition stops_of (ops : list uop) : nat := length (filter (fun o => match o with UStop => true | _ => false end) ops).
+Definition total_stops (progs : list (list uop)) : nat := fold_right (fun p a => stops_of p + a) 0 progs.
+Definition is_fault (x : event) : bool := match x with EvFault _ _ => true | _ => false end.
 Definition is_stopsec (x : event) : bool := match x with EvStopSec _ => true | _ => false end.
 Definition is_stopret (x : event) : bool := match x with EvStopRet _ => true | _ => false end.
 (* what was logged after the first event satisfying P *)
@@ -232,7 +261,7 @@ Definition after_stop_ok (x : event) : Prop :=
 Definition runs_of (ops : list uop) : list task := flat_map (fun o => match o with URun k => [k] | _ => [] end) ops.
 Definition submitted (progs : list (list uop)) : list task := flat_map runs_of progs.
 Definition pc_ops (p : pc) : list uop :=
-  match p with CIdle ops | CCall ops | CStopping ops | CJoin _ ops => ops | _ => [] end.
+  match p with CIdle ops | CCall ops | CStopping ops | CJoin _ ops | CFault ops => ops | _ => [] end.
 Definition prog_runs (th : thread pop) : list task :=
   flat_map (fun o => match o with PRun k => [k] | _ => [] end) (prog th).
 (* run(k) calls not yet decided: in progress or still to come *)
@@ -252,16 +281,18 @@ Definition prank (nw : nat) (r : bool) (v : view) : nat :=
   | WLoop => if r then 7 else 1
   | WTake => srank (st (snd v))
   | WGot _ => 8
+  | WInit => 9
   | WDone => 0
+  | CFault _ => 0
   | CIdle [] => 0
   | CIdle (_ :: _) => 7
   | CCall _ | CStopping _ => srank (st (snd v))
-  | CJoin i _ => 8 + (nw - i)
+  | CJoin i _ => 10 + (nw - i)
   end.
 Definition pwork (s : psys) : nat :=
   wsum work1 (views s) + length (queue (shared (mon s))) + (if running (shared (mon s)) then 1 else 0).
 Definition pmeasure (nw : nat) (s : psys) : nat :=
-  (length (pcs s) * (8 + nw) + 1) * pwork s + wsum (prank nw (running (shared (mon s)))) (views s).
+  (length (pcs s) * (10 + nw) + 1) * pwork s + wsum (prank nw (running (shared (mon s)))) (views s).
 
 (* an enabled step that is not a spurious wake-up, if there is one *)
 Definition pcan_move (nw maxq : nat) (s : psys) (t : nat) : option plabel :=
@@ -271,12 +302,14 @@ Definition pcan_move (nw maxq : nat) (s : psys) (t : nat) : option plabel :=
   | _, Some _, _ => Some (LMon (LBody t []))
   | _, _, Some _ => Some (LMon (LReacquire t))
   | None, None, None =>
-      match pstep nw maxq s (LLoad t), pstep nw maxq s (LExec t), pstep nw maxq s (LNext t), pstep nw maxq s (LJoin t) with
-      | Some _, _, _, _ => Some (LLoad t)
-      | _, Some _, _, _ => Some (LExec t)
-      | _, _, Some _, _ => Some (LNext t)
-      | _, _, _, Some _ => Some (LJoin t)
-      | None, None, None, None => None
+      match pstep nw maxq s (LLoad t), pstep nw maxq s (LExec t), pstep nw maxq s (LNext t), pstep nw maxq s (LJoin t),
+            pstep nw maxq s (LInit t) with
+      | Some _, _, _, _, _ => Some (LLoad t)
+      | _, Some _, _, _, _ => Some (LExec t)
+      | _, _, Some _, _, _ => Some (LNext t)
+      | _, _, _, Some _, _ => Some (LJoin t)
+      | _, _, _, _, Some _ => Some (LInit t)
+      | None, None, None, None, None => None
       end
   end.
 Definition psome_move (nw maxq : nat) (s : psys) : option plabel :=
